@@ -22,9 +22,10 @@ def mk_engine(F, cuts=CUTS, budget=3000000):
     eng = Engine(F, budget=budget)
     eng.merge_returns = True
     eng.cuts = set(cuts)
-    eng.keep_key = lambda x, fr: x[0] in ("bit", "find")
-    eng.keyed_events = {"find"}
+    eng.keep_key = lambda x, fr: x[0] in ("bit", "find", "tag")
+    eng.keyed_events = {"find", "tag"}
     eng.key_adts = {"dlt::TypeInfoKind"}
+    eng.key_top_outcomes = True
     return eng
 
 
